@@ -211,6 +211,11 @@ func (g *Global) modSetOf(fn *ssa.Function) *ModSet {
 	if ms, ok := g.modsets[fn]; ok {
 		return ms
 	}
+	if o := fn.Origin(); o != nil && o != fn {
+		if ms, ok := g.modsets[o]; ok {
+			return ms
+		}
+	}
 	return &ModSet{comps: map[string]bool{}, all: true, why: "unknown function"}
 }
 
